@@ -1,0 +1,12 @@
+//go:build !verif
+// +build !verif
+
+package consensus
+
+import (
+	"github.com/LemoFoundationLtd/lemochain-core/chain/types"
+	"github.com/LemoFoundationLtd/lemochain-core/common"
+)
+
+func verifTrace(dp *DPoVP, op string, block *types.Block, height uint32, hash common.Hash, sigs []types.SignData) {
+}
